@@ -36,6 +36,10 @@ PRECS = [53, 64, 128, 200, 700]
 
 def rnd_q(r, maxl=3):
     n = gen.val(r, maxl); d = abs(gen.val(r, maxl, False)) or 1
+    # whole zero low limbs in one component (odd other component): the 2exp functions then move limbs inside the variable (F9)
+    c = r.random()
+    if c < 0.12: d = (d | 1) << (64 * r.randint(1, 3) + r.choice([0, 0, 1, 63])); n |= 1
+    elif c < 0.24: n = (n | 1) << (64 * r.randint(1, 3) + r.choice([0, 0, 1, 63])); d |= 1
     return Fraction(n, d)
 
 def rnd_f(r, maxbits=300):
